@@ -5,6 +5,7 @@ import (
 	"go/token"
 	"go/types"
 	"regexp"
+	"sort"
 	"strconv"
 	"strings"
 
@@ -86,6 +87,27 @@ func (c *CEnv) evalBool(e *CExpr) string {
 
 func (c *CEnv) resolveType(txt string) types.Type {
 	txt = strings.TrimSpace(txt)
+	switch {
+	case strings.HasPrefix(txt, "*"):
+		return types.NewPointer(c.resolveType(txt[1:]))
+	case strings.HasPrefix(txt, "[]"):
+		return types.NewSlice(c.resolveType(txt[2:]))
+	}
+	if i := strings.Index(txt, "."); i > 0 && !strings.ContainsAny(txt, "[]( ") {
+		for _, imp := range c.pkg.Types.Imports() {
+			if imp.Name() == txt[:i] {
+				if o := imp.Scope().Lookup(txt[i+1:]); o != nil {
+					return o.Type()
+				}
+			}
+		}
+		if pk, ok := c.g.P.Pkgs[txt[:i]]; ok {
+			if o := pk.Types.Scope().Lookup(txt[i+1:]); o != nil {
+				return o.Type()
+			}
+		}
+		c.fail("cannot resolve type %q", txt)
+	}
 	tv, err := types.Eval(c.g.P.Fset, c.pkg.Types, token.NoPos, txt)
 	if err != nil {
 		c.fail("cannot resolve type %q: %v", txt, err)
@@ -272,7 +294,9 @@ func (c *CEnv) eval(e *CExpr) Val {
 			}
 		}
 		inner := c.with(names)
+		g.noFacts++
 		body := inner.evalBool(e.Args[0])
+		g.noFacts--
 		if len(guards) > 0 {
 			if e.Op == "forall" {
 				body = fmt.Sprintf("(=> (and %s) %s)", strings.Join(guards, " "), body)
@@ -282,9 +306,11 @@ func (c *CEnv) eval(e *CExpr) Val {
 		}
 		if len(e.Trig) > 0 {
 			var ts []string
+			g.noFacts++
 			for _, t := range e.Trig {
 				ts = append(ts, inner.eval(t).T)
 			}
+			g.noFacts--
 			body = fmt.Sprintf("(! %s :pattern (%s))", body, strings.Join(ts, " "))
 		}
 		return Val{fmt.Sprintf("(%s (%s) %s)", e.Op, strings.Join(decl, " "), body), types.Typ[types.Bool], "Bool"}
@@ -454,6 +480,19 @@ func (c *CEnv) evalCall(e *CExpr) Val {
 		return Val{fmt.Sprintf("(and (= (slen %s) (slen %s)) (forall ((%s Int)) (=> (and (<= 0 %s) (< %s (slen %s))) (= (select (selems %s) %s) (select (selems %s) %s)))))",
 			a.T, b.T, q, q, q, a.T, a.T, q, b.T, q), boolT, "Bool"}
 	}
+	// ghost function of this package
+	if ps := g.P.Specs[pkgShort(c.pkg.Types)]; ps != nil {
+		if gh, ok := ps.Ghosts[e.Name]; ok {
+			return c.applyGhost(c.pkg, gh, e)
+		}
+	}
+	if i := strings.Index(e.Name, "."); i > 0 {
+		if ps := g.P.Specs[e.Name[:i]]; ps != nil {
+			if gh, ok := ps.Ghosts[e.Name[i+1:]]; ok {
+				return c.applyGhost(g.P.Pkgs[e.Name[:i]], gh, e)
+			}
+		}
+	}
 	// predicate macro
 	if ps := g.P.Specs[pkgShort(c.pkg.Types)]; ps != nil {
 		if p, ok := ps.Preds[e.Name]; ok {
@@ -527,4 +566,152 @@ func (c *CEnv) expandPredArgs(p *Pred, e *CExpr, argEnv *CEnv) Val {
 		}
 	}
 	return v
+}
+
+// ---------- ghost functions ----------
+
+func ghostSym(pkg string, name string) string { return "gh_" + pkg + "_" + name }
+
+func (c *CEnv) ghostReadKeys(pk *packages.Package, gh *Ghost) []string {
+	var keys []string
+	fi := &FuncInfo{Pkg: pk}
+	for _, r := range gh.Reads {
+		keys = append(keys, c.g.resolveModKey(fi, r))
+	}
+	return keys
+}
+
+func (c *CEnv) applyGhost(pk *packages.Package, gh *Ghost, e *CExpr) Val {
+	g := c.g
+	short := pkgShort(pk.Types)
+	if len(e.Args) != len(gh.Params) {
+		c.fail("ghost %s expects %d arguments", gh.Name, len(gh.Params))
+	}
+	pe := *c
+	pe.pkg = pk
+	var argSorts, args []string
+	for _, k := range c.ghostReadKeys(pk, gh) {
+		fs, ok := g.P.fieldSort(k)
+		if !ok {
+			c.fail("ghost %s reads unknown field %s", gh.Name, k)
+		}
+		argSorts = append(argSorts, "(Array Int "+fs+")")
+		args = append(args, g.heapGet(c.st, k, fs))
+	}
+	for i, b := range gh.Params {
+		ty := pe.resolveType(b.Type)
+		v := c.eval(e.Args[i])
+		if v.S != sortOf(ty) {
+			c.fail("ghost %s: argument %s has sort %s, want %s", gh.Name, b.Name, v.S, sortOf(ty))
+		}
+		argSorts = append(argSorts, v.S)
+		args = append(args, v.T)
+	}
+	rt := pe.resolveType(gh.Result)
+	sym := ghostSym(short, gh.Name)
+	if !g.declSeen[sym] {
+		g.declFun(sym, argSorts, sortOf(rt))
+		g.emitGhostAxioms(pk, gh.Name)
+	}
+	return Val{"(" + sym + " " + strings.Join(args, " ") + ")", rt, sortOf(rt)}
+}
+
+func cexprMentions(e *CExpr, name string) bool {
+	if e == nil {
+		return false
+	}
+	if e.Op == "call" && (e.Name == name || strings.HasSuffix(e.Name, "."+name)) {
+		return true
+	}
+	for _, a := range e.Args {
+		if cexprMentions(a, name) {
+			return true
+		}
+	}
+	for _, t := range e.Trig {
+		if cexprMentions(t, name) {
+			return true
+		}
+	}
+	return false
+}
+
+// emitGhostAxioms emits (once) every axiom of the package that mentions the ghost function.
+func (g *FuncGen) emitGhostAxioms(pk *packages.Package, name string) {
+	ps := g.P.Specs[pkgShort(pk.Types)]
+	if ps == nil {
+		return
+	}
+	for i, ax := range ps.Axioms {
+		if !cexprMentions(ax.Expr, name) {
+			continue
+		}
+		key := fmt.Sprintf("axiom:%s:%d", pkgShort(pk.Types), i)
+		if g.declSeen[key] {
+			continue
+		}
+		g.declSeen[key] = true
+		g.emitAxiom(pk, ax)
+	}
+}
+
+// emitAxiom: the axiom holds for every heap: heap arrays read inside become universally quantified.
+func (g *FuncGen) emitAxiom(pk *packages.Package, ax *Axiom) {
+	saveAx := g.axiomHeap
+	g.axiomHeap = map[string]string{}
+	defer func() { g.axiomHeap = saveAx }()
+	st := &State{vars: map[types.Object]Val{}, heap: map[string]string{"$alloc": "QH_alloc"}, pc: "true"}
+	env := &CEnv{g: g, pkg: pk, st: st, old: st, names: map[string]Val{}}
+	e := ax.Expr
+	var binders []string
+	body := ""
+	if e.Op == "forall" {
+		names := map[string]Val{}
+		var guards []string
+		for _, b := range e.Binders {
+			ty := env.resolveType(b.Type)
+			s := sortOf(ty)
+			g.nfresh++
+			n := fmt.Sprintf("q_%s_%d", sanitize(b.Name), g.nfresh)
+			names[b.Name] = Val{n, ty, s}
+			binders = append(binders, fmt.Sprintf("(%s %s)", n, s))
+			if lo, hi, ok := intRange(ty); ok && ty.Underlying().(*types.Basic).Kind() != types.Int {
+				guards = append(guards, fmt.Sprintf("(<= %s %s) (<= %s %s)", lo, n, n, hi))
+			}
+		}
+		inner := env.with(names)
+		body = inner.evalBool(e.Args[0])
+		if len(guards) > 0 {
+			body = fmt.Sprintf("(=> (and %s) %s)", strings.Join(guards, " "), body)
+		}
+		if len(e.Trig) > 0 {
+			var ts []string
+			for _, t := range e.Trig {
+				ts = append(ts, inner.eval(t).T)
+			}
+			body = fmt.Sprintf("(! %s :pattern (%s))", body, strings.Join(ts, " "))
+		}
+	} else {
+		body = env.evalBool(e)
+	}
+	var hk []string
+	for k := range g.axiomHeap {
+		hk = append(hk, k)
+	}
+	sort.Strings(hk)
+	var hb []string
+	for _, k := range hk {
+		hb = append(hb, fmt.Sprintf("(%s %s)", "QH_"+sanitize(k), g.axiomHeap[k]))
+	}
+	all := append(hb, binders...)
+	if len(all) == 0 {
+		g.emit("(assert " + body + ")")
+		return
+	}
+	g.emit(fmt.Sprintf("(assert (forall (%s) %s))", strings.Join(all, " "), body))
+	g.notesAxiom(pkgShort(pk.Types), ax)
+}
+
+func (g *FuncGen) notesAxiom(pkg string, ax *Axiom) {
+	g.notes = append(g.notes, fmt.Sprintf("ghost axiom %s.%s (assumed): %s", pkg, ax.Label, ax.Src))
 }
